@@ -240,7 +240,8 @@ fn execute(b: &Base, programs: &[Vec<String>], schedule: Vec<u64>, forced: bool)
                     fps.push(hex(&s[..8]));
                     if let Some(em) = &h.encrypted_metadata {
                         if em.len() >= 12 {
-                            fps.push(hex(&em[..8]));
+                            // same form as the PKE nonce: a nonce reused ACROSS the two layers must collide too
+                            fps.push(hex(&em[..12]));
                         }
                     }
                 }
